@@ -223,7 +223,8 @@ GET_ORDER = M.contract(
     ensures=["result[0] == ord_of(self.rb, self.vendor, row, cmd_direct) if scope is None else True",
              "result[1] == dir_of(self.rb, self.vendor, row, cmd_direct) if scope is None else True",
              "result[2] == rb_of(self.rb, self.vendor, row, cmd_direct) if scope is None else True"],
-    note="assumed: get_order is a function of (rules, vendor, row, direct) (it reads nothing else and modifies nothing)",
+    note="assumed HERE: get_order is a function of (rules, vendor, row, direct); that is what the contract of get_order in "
+         "specs/getorder.py establishes (result == a fold over the rules, the registry entry of the vendor and the arguments)",
     properties=["C08"])
 
 ORDER_CONFIG = M.contract(
